@@ -98,6 +98,11 @@ PiLine == F.pi[1] # NoneV => /\ Near(F.pi[1] * 10000, T.pi[1], 5001)   \* folded
    unfolded (hundredths), API folded, API unfolded (micro)>> per conformation of a multi-conformation input) *)
 ConfPiLine == \A k \in 1..Len(T.confpi) : /\ Near(T.confpi[k][1] * 10000, T.confpi[k][3], 5001)
                                              /\ Near(T.confpi[k][2] * 10000, T.confpi[k][4], 5001)
+(* ... and that conformation's own charge curve (T.confch: per conformation, per grid node <<file unfolded, file folded
+   (hundredths), API unfolded, API folded (1e-4)>>; a table of another length is recorded as one impossible row) *)
+ConfChargeRows == \A c \in 1..Len(T.confch) : \A k \in 1..Len(T.confch[c]) :
+                     /\ Near(100 * T.confch[c][k][1], T.confch[c][k][3], 51)
+                     /\ Near(100 * T.confch[c][k][2], T.confch[c][k][4], 51)
 OptLine == (F.opt[1] # NoneV /\ T.opt[1] # NoneV) =>
                /\ Near(F.opt[1] * 100000, T.opt[1], 50001)
                /\ Near(F.opt[2] * 1000, T.opt[2], 501)
